@@ -155,3 +155,58 @@ pub mod io {
         crate::error::FeoxError::IoError(std::io::Error::other("verif: injected I/O failure"))
     }
 }
+
+/// Protocol events of the write-behind path (allocation, publication, release) and a switch
+/// that wakes the flush workers at shutdown instead of letting them time out.
+pub mod proto {
+    use std::sync::atomic::{AtomicBool, Ordering};
+    use std::sync::{Arc, RwLock};
+
+    #[derive(Clone, Copy, Debug, PartialEq, Eq)]
+    pub enum Kind {
+        /// extent handed out by the free-space manager for a record write: (sector, blocks)
+        Alloc,
+        /// record became readable from disk (`record.sector` set): (sector, blocks) + key, timestamp
+        Publish,
+        /// extent returned to the free-space manager: (sector, blocks)
+        Release,
+        /// one periodic-coordinator tick: (worker woken, shard count)
+        Tick,
+        /// a worker drained its shards: (worker id, entries)
+        WorkerFlush,
+    }
+
+    pub trait Observer: Send + Sync {
+        fn event(&self, kind: Kind, a: u64, b: u64, key: &[u8], timestamp: u64);
+    }
+
+    static ARMED: AtomicBool = AtomicBool::new(false);
+    static FAST_SHUTDOWN: AtomicBool = AtomicBool::new(false);
+    static OBSERVER: RwLock<Option<Arc<dyn Observer>>> = RwLock::new(None);
+
+    pub fn set_observer(observer: Option<Arc<dyn Observer>>) {
+        let armed = observer.is_some();
+        *OBSERVER.write().unwrap_or_else(|p| p.into_inner()) = observer;
+        ARMED.store(armed, Ordering::SeqCst);
+    }
+
+    pub fn fast_shutdown(enabled: bool) {
+        FAST_SHUTDOWN.store(enabled, Ordering::SeqCst);
+    }
+
+    #[inline]
+    pub(crate) fn fast_shutdown_enabled() -> bool {
+        FAST_SHUTDOWN.load(Ordering::Relaxed)
+    }
+
+    #[inline]
+    pub(crate) fn event(kind: Kind, a: u64, b: u64, key: &[u8], timestamp: u64) {
+        if !ARMED.load(Ordering::Relaxed) {
+            return;
+        }
+        let observer = OBSERVER.read().unwrap_or_else(|p| p.into_inner()).clone();
+        if let Some(observer) = observer {
+            observer.event(kind, a, b, key, timestamp);
+        }
+    }
+}
